@@ -1,6 +1,6 @@
 import Snowflake.Generated.ServerLib
 import Snowflake.Model.ClientAddr
-import Snowflake.Base.Skel
+import Snowflake.Base.SkelStack
 /-!
 Tie obligations for C18.  `clientAddr`, `newClientIDMap`, `Set` and `Get` are outside the translator's
 expression subset (maps, slices of structs, `net.ParseIP`), so they are tied by *statement listings*
@@ -8,6 +8,12 @@ regenerated from `server/lib/http.go` and `server/lib/turbotunnel.go` (skeletons
 assignment and returned expression: guards, order and presence of
 the statements that `Model/ClientAddr.lean` mirrors) and by the differential harness
 `harness/c18_serverlib_test.go`.
+
+The attribution clause (`Model/Attribution.lean`: a carrier performs `Set id (clientAddr ip)`; a session
+performs one `Get id` when it is established and every stream reports that result) is tied by listings of
+`httpHandler.ServeHTTP`, `turbotunnelMode` and `SnowflakeListener.acceptStreams`, their signatures, and the
+list of all functions of the package that mention `clientIDAddrMap` / `SnowflakeClientConn` / `.address`;
+dynamically by `harness/c18_attr_test.go`.
 -/
 namespace Snowflake.Tie.ServerLib
 open Snowflake.Skel Snowflake.Gen.ServerLib
@@ -88,6 +94,119 @@ theorem get_listing :
     ∧ has stmts_Get "return nil, false" = true
     ∧ count stmts_Get (pre "assign") = 1 ∧ count stmts_Get (pre "return") = 2
     ∧ count stmts_Get (pre "call delete(") = 0 := by
+  decide +kernel
+
+/-! ## attribution: which `Set` a carrier performs, which `Get` a session performs -/
+
+def getLine : String := "assign addr, ok := clientIDAddrMap.Get(conn.RemoteAddr().(turbotunnel.ClientID))"
+def queueLine : String := "call l.queueConn(&SnowflakeClientConn{Conn: stream, address: addr})"
+
+/-- Only two functions of the package touch the global map — `turbotunnelMode` (the `Set`) and
+`acceptStreams` (the `Get`), once each; `turbotunnelMode` is called from `ServeHTTP` only and
+`acceptStreams` from `acceptSessions` only (one call per KCP session); the `SnowflakeClientConn` wrapper is
+built in `acceptStreams` only and its `address` field is read by `RemoteAddr` and written nowhere else. -/
+theorem attribution_sites :
+    users_clientIDAddrMap = [("SnowflakeListener.acceptStreams", 1), ("turbotunnelMode", 1)]
+    ∧ users_turbotunnelMode = [("httpHandler.ServeHTTP", 1)]
+    ∧ users_acceptStreams = [("SnowflakeListener.acceptSessions", 1)]
+    ∧ users_SnowflakeClientConn = [("SnowflakeListener.acceptStreams", 1)]
+    ∧ users_address = [("SnowflakeClientConn.RemoteAddr", 1)]
+    ∧ remoteAddr_ret = "conn.address" := by
+  decide +kernel
+
+/-- `acceptStreams` (1a) — model event `establish s id`: exactly one access to the map, a `Get` keyed by
+the ClientID of *this* KCP session (`conn`, the only parameter, never reassigned), whose result is the only
+assignment to `addr`. -/
+theorem acceptStreams_get_once :
+    sig_acceptStreams = [("conn", "*kcp.UDPSession"), ("", "error")]
+    ∧ count stmts_acceptStreams (pre "call clientIDAddrMap.") = 1
+    ∧ count stmts_acceptStreams (· == "call clientIDAddrMap.Get(conn.RemoteAddr().(turbotunnel.ClientID))") = 1
+    ∧ count stmts_acceptStreams (· == getLine) = 1
+    ∧ count stmts_acceptStreams (pre "assign addr") = 1
+    ∧ count stmts_acceptStreams (pre "assign conn") = 0 := by
+  decide +kernel
+
+/-- `acceptStreams` (1b) — the lookup happens once per session, when it is established: it is a top-level
+statement of the function (not inside a loop, branch, goroutine, deferred call or function literal) and
+precedes the one and only loop; nothing inside the loop touches the map or assigns `addr`. -/
+theorem acceptStreams_get_before_loop :
+    (topLevel stmts_acceptStreams).contains getLine = true
+    ∧ count stmts_acceptStreams (pre "for") = 1 ∧ count stmts_acceptStreams (pre "range ") = 0
+    ∧ count stmts_acceptStreams (pre "go") = 0 ∧ count stmts_acceptStreams (pre "func{") = 0
+    ∧ count stmts_acceptStreams (pre "defer") = 0
+    ∧ before stmts_acceptStreams (· == getLine) (· == "for{") = true
+    ∧ noneInside stmts_acceptStreams (pre "call clientIDAddrMap.") (pre "for") = true
+    ∧ noneInside stmts_acceptStreams (pre "assign addr") (pre "for") = true := by
+  decide +kernel
+
+/-- `acceptStreams` (2) — model event `stream s`: the loop accepts a stream of the smux session layered
+on `conn` and queues it wrapped in a `SnowflakeClientConn` whose `address` is the variable `addr` assigned
+by the lookup above; that is the only `queueConn` and the only `SnowflakeClientConn` literal, and it sits
+inside the loop after the `AcceptStream`. -/
+theorem acceptStreams_stamps_every_stream :
+    has stmts_acceptStreams "assign sess, err := smux.Server(conn, smuxConfig)" = true
+    ∧ count stmts_acceptStreams (pre "assign sess") = 1
+    ∧ count stmts_acceptStreams (· == "call sess.AcceptStream()") = 1
+    ∧ has stmts_acceptStreams "assign stream, err := sess.AcceptStream()" = true
+    ∧ count stmts_acceptStreams (pre "assign stream") = 1
+    ∧ count stmts_acceptStreams (pre "call l.queueConn(") = 1
+    ∧ has stmts_acceptStreams queueLine = true
+    ∧ count stmts_acceptStreams (pre "lit ") = 1
+    ∧ has stmts_acceptStreams "lit SnowflakeClientConn{Conn: stream, address: addr}" = true
+    ∧ allInside stmts_acceptStreams (· == "call sess.AcceptStream()") (· == "for{") = true
+    ∧ allInside stmts_acceptStreams (· == queueLine) (· == "for{") = true
+    ∧ before stmts_acceptStreams (· == "for{") (· == "assign stream, err := sess.AcceptStream()") = true
+    ∧ before stmts_acceptStreams (· == "assign stream, err := sess.AcceptStream()") (· == queueLine) = true
+    ∧ stmts_acceptStreams.getLast? = some "}" := by
+  decide +kernel
+
+/-- `ServeHTTP` — the address of a carrier is `clientAddr` of the request's `client_ip` parameter: both
+variables are assigned exactly once, in that order, before the single call
+`turbotunnelMode(conn, addr, handler.pconn)`, which sits in the `switch` arm of the matching token; the
+second parameter of `turbotunnelMode` is its `addr`. -/
+theorem serveHTTP_addr_listing :
+    sig_clientAddr = [("clientIPParam", "string"), ("", "net.Addr")]
+    ∧ has stmts_ServeHTTP "assign clientIPParam := r.URL.Query().Get(\"client_ip\")" = true
+    ∧ count stmts_ServeHTTP (pre "assign clientIPParam") = 1
+    ∧ has stmts_ServeHTTP "assign addr := clientAddr(clientIPParam)" = true
+    ∧ count stmts_ServeHTTP (pre "assign addr") = 1
+    ∧ count stmts_ServeHTTP (pre "call clientAddr(") = 1
+    ∧ has stmts_ServeHTTP "assign conn := websocketconn.New(ws)" = true
+    ∧ count stmts_ServeHTTP (pre "assign conn") = 1
+    ∧ before stmts_ServeHTTP (pre "assign clientIPParam") (pre "assign addr") = true
+    ∧ before stmts_ServeHTTP (pre "assign addr") (pre "call turbotunnelMode(") = true
+    ∧ count stmts_ServeHTTP (pre "call turbotunnelMode(") = 1
+    ∧ has stmts_ServeHTTP "call turbotunnelMode(conn, addr, handler.pconn)" = true
+    ∧ allInside stmts_ServeHTTP (pre "call turbotunnelMode(") (· == "switch{") = true
+    ∧ before stmts_ServeHTTP (· == "case bytes.Equal(token[:], turbotunnel.Token[:]):") (pre "call turbotunnelMode(") = true
+    ∧ before stmts_ServeHTTP (pre "call turbotunnelMode(") (· == "case default:") = true
+    ∧ count stmts_ServeHTTP (pre "case ") = 2
+    ∧ sig_turbotunnelMode = [("conn", "net.Conn"), ("addr", "net.Addr"), ("pconn", "*turbotunnel.QueuePacketConn"), ("", "error")]
+    ∧ count stmts_ServeHTTP (pre "call clientIDAddrMap.") = 0 := by
+  decide +kernel
+
+/-- `turbotunnelMode` — model event `carrier id ip`: the ClientID is read from the carrier first (an error
+returns before anything is stored); then exactly one access to the map, `Set(clientID, addr)` with that
+ClientID and the function's `addr` parameter (neither is reassigned), as a top-level statement, before
+the goroutines start and hence before any packet of this carrier is queued (`QueueIncoming(p, clientID)`,
+same ClientID). -/
+theorem turbotunnel_set_listing :
+    stmts_turbotunnelMode.head? = some "call io.ReadFull(conn, clientID[:])"
+    ∧ count stmts_turbotunnelMode (pre "call io.ReadFull(") = 1
+    ∧ blockOf stmts_turbotunnelMode (· == "if err != nil{") = some ["return fmt.Errorf(\"reading ClientID: %v\", err)"]
+    ∧ before stmts_turbotunnelMode (pre "call io.ReadFull(") (· == "if err != nil{") = true
+    ∧ before stmts_turbotunnelMode (· == "if err != nil{") (pre "call clientIDAddrMap.") = true
+    ∧ count stmts_turbotunnelMode (pre "call clientIDAddrMap.") = 1
+    ∧ has stmts_turbotunnelMode "call clientIDAddrMap.Set(clientID, addr)" = true
+    ∧ (topLevel stmts_turbotunnelMode).contains "call clientIDAddrMap.Set(clientID, addr)" = true
+    ∧ count stmts_turbotunnelMode (pre "assign addr") = 0
+    ∧ count stmts_turbotunnelMode (pre "assign clientID") = 0
+    ∧ count stmts_turbotunnelMode (pre "assign conn") = 0
+    ∧ before stmts_turbotunnelMode (pre "call clientIDAddrMap.") (· == "go{") = true
+    ∧ before stmts_turbotunnelMode (pre "call clientIDAddrMap.") (pre "call pconn.QueueIncoming(") = true
+    ∧ count stmts_turbotunnelMode (pre "call pconn.QueueIncoming(") = 1
+    ∧ has stmts_turbotunnelMode "call pconn.QueueIncoming(p, clientID)" = true
+    ∧ allInside stmts_turbotunnelMode (pre "call pconn.QueueIncoming(") (· == "go{") = true := by
   decide +kernel
 
 end Snowflake.Tie.ServerLib
